@@ -1307,8 +1307,7 @@ theorem namesPure_zero_names (c : Cls) (enc : Enc) (hdr : Bytes) (img : Bytes) (
         | zero _ hz' => rw [hz'.data] at hd; cases hd
         | never _ hdn _ => rw [hdn] at hd; cases hd
         | both hsf hdd _ _ _ =>
-          unfold getString
-          rw [hd]
+          rw [LoadTie.getString_hand, hd]
           dsimp only
           by_cases hsz : 0 < (secGetData c [] lsp bp).2.size.toNat
           · have h0 : d.head? = some 0 := hTd d (by rw [← hdd]; exact hd) (by rw [← hsf.size]; exact hsz)
